@@ -94,6 +94,16 @@ pub fn drive<T>(fut: impl Future<Output = T>) -> T {
     }
 }
 
+/// drives a future the instrumented function RETURNED (not part of the call: its polls are not logged)
+pub fn drive_returned<T>(fut: impl Future<Output = T>) -> T {
+    let w = noop_waker();
+    let mut cx = Context::from_waker(&w);
+    let mut fut = Box::pin(fut);
+    loop {
+        if let Poll::Ready(v) = fut.as_mut().poll(&mut cx) { return v; }
+    }
+}
+
 pub fn take(which: &'static std::thread::LocalKey<RefCell<Vec<String>>>) -> String {
     which.with(|f| { let v: Vec<String> = f.borrow_mut().drain(..).collect(); if v.is_empty() { "-".into() } else { v.join(",") } })
 }
